@@ -137,7 +137,8 @@ class SimTime:
         s = ACTIVE
         if s is None:
             return _time.sleep(dt)
-        s.sleep(dt)
+        # a loaded machine oversleeps: sleeps shorter than the run's quantum take the quantum
+        s.sleep(max(dt, getattr(s, 'min_sleep', 0.0)))
 
     @staticmethod
     def monotonic():
@@ -163,6 +164,9 @@ class SimConn:
         kwargs['timeout'] = 0
         kwargs['check_same_thread'] = False
         self.real = _sqlite3.connect(path, **kwargs)
+        if getattr(s, 'var_limit', None):
+            # the number of parameters one statement may bind, as in SQLite builds older than 3.32 (999)
+            self.real.setlimit(_sqlite3.SQLITE_LIMIT_VARIABLE_NUMBER, s.var_limit)
         self.task = s.current
         self.proc = s.cur_proc()
         self.pid = self.proc.pid
